@@ -9,11 +9,6 @@ Open Scope N_scope.
 
 Definition tx_keeps (tx : str -> str) : Prop := forall x, tx_keeps_on tx x = true.
 
-(* finite obligations over the generated catalogue: no path starts at `type` *)
-Definition heads_avoid_type : bool := negb (mem_str k_type action_heads) && negb (mem_str k_type router_heads).
-Lemma heads_avoid_type_true : heads_avoid_type = true.
-Proof. vm_compute. reflexivity. Qed.
-
 Section Keeps.
   Variable tx : str -> str.
   Hypothesis Hk : tx_keeps tx.
@@ -90,9 +85,11 @@ Section Keeps.
   Ltac outside_fp := apply not_in_keys; reflexivity.
 
   Lemma action_texts_rel : forall a a',
-    obj_frame tx action_footprint action_heads a a' -> action_texts_ok a' = action_texts_ok a.
+    action_frame tx a a' -> action_texts_ok a' = action_texts_ok a.
   Proof.
-    intros a a' [H1 H2].
+    intros a a' Hf.
+    apply (obj_frame_mono tx _ _ action_footprint action_heads a a' (action_fp_sub (type_of a))
+             (row_heads_sub catalog_actions (type_of a))) in Hf. destruct Hf as [H1 H2].
     assert (Ht : olookup k_type a' = olookup k_type a).
     { apply H2; [outside_fp|]. apply not_in_keys. pose proof heads_avoid_type_true as H. unfold heads_avoid_type in H.
       apply andb_true_iff in H. destruct H as [H _]. now apply negb_true_iff in H. }
@@ -109,9 +106,11 @@ Section Keeps.
   Qed.
 
   Lemma router_texts_rel : forall r r',
-    obj_frame tx router_footprint router_heads r r' -> router_texts_ok r' = router_texts_ok r.
+    router_frame tx r r' -> router_texts_ok r' = router_texts_ok r.
   Proof.
-    intros r r' [H1 H2].
+    intros r r' Hf.
+    apply (obj_frame_mono tx _ _ router_footprint router_heads r r' (fun k H => H)
+             (row_heads_sub catalog_routers (type_of r))) in Hf. destruct Hf as [H1 H2].
     assert (Ht : olookup k_type r' = olookup k_type r).
     { apply H2; [outside_fp|]. apply not_in_keys. pose proof heads_avoid_type_true as H. unfold heads_avoid_type in H.
       apply andb_true_iff in H. destruct H as [_ H]. now apply negb_true_iff in H. }
